@@ -115,16 +115,16 @@ Theorem t_obs_eq_spec m o : t_obs_eq m o = true <->
 Proof. apply ta_set_eq_spec. Qed.
 
 Theorem w_obs_eq_spec m o : w_obs_eq m o = true <->
-  (forall x, In x (wstarts m) <-> In x (wstarts o)) /\ (forall q, In q (wfinals m) <-> In q (wfinals o)) /\
-  (forall e, In e (wedges m) <-> In e (wedges o)).
+  (forall s, In s (wstartset m) <-> In s (wstartset o)) /\ (forall x, In x (wsyms m) <-> In x (wsyms o)) /\
+  (forall q, In q (wfinals m) <-> In q (wfinals o)) /\ (forall e, In e (wedges m) <-> In e (wedges o)).
 Proof.
-  unfold w_obs_eq, wval_eq. rewrite !andb_true_iff, !(sub_by_spec pair_eqb pair_eqb_eq), !(sub_by_spec edge_eqb edge_eqb_eq), set_eqN_spec.
+  unfold w_obs_eq, wval_eq. rewrite !andb_true_iff, !(sub_by_spec pair_eqb pair_eqb_eq), !(sub_by_spec edge_eqb edge_eqb_eq), !set_eqN_spec.
   unfold incl. split.
-  - intros [[[[A B] C] D] E]. split; [|split].
+  - intros [[[[[S A] B] C] D] E]. split; [exact S|]. split; [|split].
     + intros x; split; auto.
     + exact C.
     + intros x; split; auto.
-  - intros [A [B C]]. split; [split; [split; [split|]|]|]; try exact B; intros x Hx; try (apply A; auto); try (apply C; auto).
+  - intros [S [A [B C]]]. split; [split; [split; [split; [split|]|]|]|]; try exact B; try exact S; intros x Hx; try (apply A; auto); try (apply C; auto).
 Qed.
 
 Theorem t_union_gate_spec mA mB A B R : t_union_gate mA mB A B R = true ->
